@@ -18,7 +18,7 @@ if [ "$WHAT" = all ] || [ "$WHAT" = mutants ]; then
   done
 fi
 if [ "$WHAT" = all ] || [ "$WHAT" = seeded ]; then
-  for d in seeded/*/; do
+  for d in seeded/C*/; do
     id=$(basename $d)
     checks=$(python3 -c "
 import json,sys
